@@ -601,7 +601,10 @@ impl St {
                 let id = parse_id(a[0], 'W')?;
                 let data = parse_bytes(a[1])?;
                 with_handle(&mut self.writers, &id, |h| match &mut h.k {
-                    WK::S(_) => Bad::Arg.line().to_string(),
+                    WK::S(_) => {
+                        let _ = &data;
+                        Bad::Arg.line().to_string()
+                    }
                     #[cfg(any(feature = "rt-async-std", feature = "rt-tokio"))]
                     WK::A(w) => rt::block_on(async {
                         use std::future::Future;
@@ -1447,22 +1450,47 @@ fn main() {
         .unwrap_or(60);
     start_watchdog(Duration::from_secs(limit));
 
+    // DRIVE_ATTACH=1: everything a process does while starting up (loader, runtime) is done; stop here so
+    // that a tracer can attach now (strace -f -p): its per-thread counters then start with the operations,
+    // and "the N-th openat / read / stat of a thread" is a call of the library, not of the start-up.
+    if std::env::var_os("DRIVE_ATTACH").is_some_and(|v| v == "1") {
+        extern "C" {
+            fn raise(sig: i32) -> i32;
+        }
+        const SIGSTOP: i32 = 19;
+        unsafe {
+            raise(SIGSTOP);
+        }
+    }
+
     // DRIVE_WORKER=1: run the op loop on a fresh thread, so that per-thread system-call counters
     // (strace's `when=N`) start at zero for the operations and the process start-up is not counted.
     let worker = std::env::var_os("DRIVE_WORKER").is_some_and(|v| v == "1");
     if worker {
         let ops = slurp_stdin();
+        let tmp_before = all_tmp_files();
+        let tmp_for_worker = tmp_before.clone();
         let (tx, rx) = std::sync::mpsc::sync_channel::<(bool, String)>(0);
         let (ack_tx, ack_rx) = std::sync::mpsc::channel::<bool>();
         let _ = PRINTER.set((tx, std::sync::Mutex::new(ack_rx)));
         let h = std::thread::Builder::new()
             .name("drive-ops".into())
             .stack_size(64 << 20)
-            .spawn(move || op_loop(scratch_str, mark, Box::new(std::io::Cursor::new(ops))));
+            .spawn(move || {
+                op_loop(
+                    scratch_str,
+                    mark,
+                    Box::new(std::io::Cursor::new(ops)),
+                    tmp_for_worker,
+                )
+            });
         match h {
             Ok(h) => {
                 // The op thread ends the process itself; until then print what it sends.
                 while let Ok((to_stdout, text)) = rx.recv() {
+                    if text == DONE {
+                        finish(&tmp_before);
+                    }
                     let _ = ack_tx.send(emit_direct(to_stdout, &text));
                 }
                 let _ = h.join();
@@ -1474,7 +1502,13 @@ fn main() {
         }
         std::process::exit(0);
     }
-    op_loop(scratch_str, mark, Box::new(std::io::stdin().lock()))
+    let tmp_before = all_tmp_files();
+    op_loop(
+        scratch_str,
+        mark,
+        Box::new(std::io::stdin().lock()),
+        tmp_before,
+    )
 }
 
 /// Temp files of every cache directory (`c<digits>`) below the scratch directory.
@@ -1493,6 +1527,7 @@ fn all_tmp_files() -> BTreeSet<String> {
     s
 }
 
+#[cfg_attr(not(any(feature = "rt-async-std", feature = "rt-tokio")), allow(dead_code))]
 /// The async writers finish some work (dropping the temp file after a failed close, the
 /// detached clean-up of a dropped writer) on pool threads AFTER the caller has its answer.
 /// `process::exit` would cut that short, so give it a moment: wait until no temp file
@@ -1507,8 +1542,12 @@ fn quiesce(before: &BTreeSet<String>) {
     }
 }
 
-fn op_loop(scratch_str: String, mark: bool, mut input: Box<dyn std::io::BufRead>) {
-    let tmp_before = all_tmp_files();
+fn op_loop(
+    scratch_str: String,
+    mark: bool,
+    mut input: Box<dyn std::io::BufRead>,
+    tmp_before: BTreeSet<String>,
+) {
     let mut st = St {
         scratch: scratch_str,
         writers: HashMap::new(),
@@ -1570,9 +1609,23 @@ fn op_loop(scratch_str: String, mark: bool, mut input: Box<dyn std::io::BufRead>
     safe_drop(readers);
     safe_drop(linkers);
     let _ = std::io::stdout().flush();
+    if PRINTER.get().is_some() {
+        // worker mode: the main thread does the waiting for background clean-up (directory scans are
+        // system calls of the injected classes) and ends the process
+        let _ = emit(false, DONE.to_string());
+        loop {
+            std::thread::park();
+        }
+    }
+    finish(&tmp_before)
+}
+
+const DONE: &str = "\u{0}done";
+
+fn finish(tmp_before: &BTreeSet<String>) -> ! {
     #[cfg(any(feature = "rt-async-std", feature = "rt-tokio"))]
-    quiesce(&tmp_before);
+    quiesce(tmp_before);
     #[cfg(not(any(feature = "rt-async-std", feature = "rt-tokio")))]
-    let _ = &tmp_before;
+    let _ = tmp_before;
     std::process::exit(0);
 }
